@@ -39,13 +39,14 @@ def run(repo, chk):
           'LM state / predictions are permuted with the beam; state advanced only for extended prefixes')
     R.run('RECUR', call_effects, repo, chk)
     refcheck.run_all(R, repo, chk, 'RECUR', 'lm_ref.py', LM_WHAT)
+    refcheck.run_all(R, repo, chk, 'RECUR', 'conf_ref.py', {'total_scores': 'total = visual + lm_weight * LM (visual only when no LM score)', 'posteriors': 'totals minus their logsumexp', 'confidence': 'exp of the best posterior'}, only=('total_scores', 'posteriors', 'confidence', 'transcript_confidence'))
     refcheck.run_all(R, repo, chk, 'RECUR', 'decsetup_ref.py', {'decoder_factory': 'LM_SCALE / INSERTION_BONUS / BEAM_SIZE of the configuration reach the decoder in those roles; the LM is wrapped with the decoder symbols', 'dec_init': 'the decoder keeps the LM scale and insertion bonus it was given', 'page_decoder_factory': 'the page decoder gets the configured decoder, threshold and carry-over flag'}, only=('decoder_factory', 'lm_factory', 'construct_lm', 'hs_init', 'page_decoder_factory', 'dec_init'))
     R.run('LOOPSTATE', dc.loopstate, repo, chk, 'LOOPSTATE', True)
     R.run('CDEP', cdep, repo, chk)
     R.run('SIBLING', sibling, repo, chk)
     chk.expect('SCALE', 5)
     chk.expect('PAIR', 3)
-    chk.expect('RECUR', 34)
+    chk.expect('RECUR', 39)
     chk.expect('LOOPSTATE', 3)
     chk.expect('CDEP', 1)
     chk.expect('SIBLING', 3)
